@@ -256,19 +256,31 @@ CHECKS = {
          'structural only. Model describes the F4/F7-repaired code. No axioms.')),
  'C14': dict(
    design_ref='§6 C14',
-   technique='Coq proof over a hand model of functions.py on BDDs-by-meaning + vm_compute truth-table correspondence in three modes (CUDD restrict, no-CUDD on both back ends)',
+   technique='Coq proofs about extract_function/make_functions translated from functions.py on every run (tie T; proved Leibniz-equal to a structured model on BDDs-by-meaning) + vm_compute truth-table correspondence in three modes (CUDD restrict, no-CUDD on both back ends)',
    text=('Proved for every relation, output list, set-iteration order and '
          'every restrict meeting its two-clause contract: extracted functions '
          'depend on no chosen output bit; on every input with some satisfying '
          'output the functions values satisfy the relation (ignored outputs '
          'arbitrary); care = p xor n is exactly the solvable inputs before '
          'widening, widening only enlarges it, forced values are returned; '
-         'the asserts of make_functions never fire. Correspondence compares '
-         'bits chosen, intermediate relations, care and function tables with '
-         'the real code; restrict contract re-checked on every sampled call.'),
-   note=('Trusted: Coq kernel+vm_compute; dd by meaning; cudd.restrict only '
-         'through its contract; set iteration orders observed through a '
-         'logging proxy; sampled tie. No axioms.')),
+         'the asserts of make_functions never fire. The model is the code: '
+         'on every run extract_function and make_functions are translated '
+         'from the current source (fail-closed, tools/py2coq_fn.py) and the '
+         'generated terms are proved equal to the model for all arguments, '
+         'the flag collecting the translated asserts equal to the model\'s, '
+         'and the sets the two loops iterate over equal to the model\'s '
+         '(C14_model_is_translated_code); the main theorems are restated '
+         'about the generated definitions (C14_translated_*). Correspondence '
+         'compares bits chosen, intermediate relations, care and function '
+         'tables with the real code; restrict contract re-checked on every '
+         'sampled call.'),
+   note=('Trusted: Coq kernel+vm_compute; the translator py2coq_fn.py (sets '
+         'as lists, dict as association list, KeyError of set.remove not '
+         'modelled, assert messages and docstrings skipped: all listed as '
+         'notes in gen/FunctionsGen.v); dd by meaning (what bdd.exist/let/'
+         'support/apply denote is tied by the sampled correspondence only); '
+         'cudd.restrict only through its contract; set iteration orders are '
+         'arguments, observed through a logging proxy. No axioms.')),
  'C17': dict(
    design_ref='§6 C17',
    technique='Coq proofs for the omega side (parsers_agree, fetch_sound, frame/redeclare_guard/idempotent/history_independent, back-end independence under an explicit dd contract) + 4-configuration differential run against one model run',
